@@ -93,6 +93,18 @@ CLAIMED['C17'] = dict(
          'classes; pydicom data-set codec executed as is; C-GET store context id from {3,129,255} (dict key).',
     design='5/C17')
 
+CLAIMED['C14'] = dict(
+    text='The real acceptor (handle/_establish/reject/_loop), requester (_request/_handle_errors/receive/release/abort) and '
+         'the request_association context manager run symbolically without provider threads: (result, source, reason) of a '
+         'refusal and (source, reason) of an abort are symbolic over the whole byte range, the position of the '
+         'refusal/abort/release among DIMSE exchanges and the point of an application exception in the with-body are '
+         'symbolic. Asserted: the A-ASSOCIATE-RJ bytes carry exactly the triple, the rejection/abort/release errors carry '
+         'the fields unchanged, no service runs on a refused association, normal exit = exactly one A-RELEASE-RQ and no '
+         'A-ABORT, exceptional exit = exactly one A-ABORT and the exception propagates, release by the peer is answered.',
+    note=TRUSTED + 'dulprovider.DULServiceProvider replaced by a scripted recorder inside asceprovider; at most 2 DIMSE '
+         'exchanges before the ending.',
+    design='5/C14')
+
 NOT_YET = 'check not built yet in this revision (see DESIGN.md section 5 for the plan)'
 
 NOT_APPLICABLE = {}
